@@ -352,8 +352,15 @@ class MultiPaxosNode(Entity):
             self._apply_committed(newly_committed)
         return []
 
-    def _handle_heartbeat(self, event: Event) -> None:
+    def _handle_heartbeat(self, event: Event) -> list[Event] | None:
         metadata = event.context.get("metadata", {})
+
+        # Self-heartbeat tick: the leader's own timer, not a message from a peer
+        if metadata.get("self_heartbeat"):
+            if not self._is_leader:
+                return None
+            return self._send_heartbeat()
+
         ballot = Ballot(metadata.get("ballot_number", 0), metadata.get("ballot_node", ""))
         leader_commit = metadata.get("commit_index", 0)
 
@@ -366,7 +373,7 @@ class MultiPaxosNode(Entity):
             if leader_commit > self._log.commit_index:
                 newly_committed = self._log.advance_commit(leader_commit)
                 self._apply_committed(newly_committed)
-        return
+        return None
 
     def _handle_forward(self, event: Event) -> list[Event]:
         metadata = event.context.get("metadata", {})
